@@ -109,7 +109,7 @@ def mc_text(tier, rng):
     big = tier == "thorough"
     kmax = 16 if big else 12
     models = poly_models(tier)
-    sy = spatial_vectors(rng, kmax, 12 if big else 4)
+    sy = spatial_vectors(rng, kmax, 8 if big else 3)
     intvals = [(1, 2), (1, 1), (3, 1)] + ([(2, 1)] if big else [])
     defs = {
         "Models": "{" + ", ".join('[name |-> "%s", opt |-> %d, dim |-> %d]' % m for m in models) + "}",
@@ -120,7 +120,8 @@ def mc_text(tier, rng):
         "KMax": str(kmax),
         "Dims": "{1, 2, 3}",
         "AnisExps": "{-1, 0, 1}",
-        "Quarters": "{0, 1, 2, 3}",
+        "Angles": ("{<<5, 0>>, <<0, 5>>, <<-5, 0>>, <<0, -5>>, <<3, 4>>, <<4, -3>>, <<-3, 4>>, <<-4, -3>>}" if big
+                   else "{<<5, 0>>, <<0, 5>>, <<-5, 0>>, <<0, -5>>, <<3, 4>>, <<4, -3>>}"),
         "SpatialY": "(" + " @@ ".join("%d :> %s" % (d, tlaval.to_tla(set(tuple(v) for v in vs)))
                                       for d, vs in sy.items()) + ")",
         "YadK": "1..%d" % (kmax // 2),
@@ -236,13 +237,19 @@ def group_cases(states):
         elif k == "yadrenko":
             key = ("yadrenko", 3, (), (), c["uR"])
         else:
-            key = ("spatial", c["dim"], tuple(c["es"]), tuple(c["qs"]), 0)
+            key = ("spatial", c["dim"], tuple(c["es"]), tuple(tuple(a) for a in c["qs"]), 0)
         groups.setdefault(key, []).append(c)
     out = []
     for key in sorted(groups):
         cs = sorted(groups[key], key=lambda c: (c["fn"], c["axis"], c["t"], tuple(c["x"])))
         out.append(dict(kind=key[0], dim=key[1], es=key[2], qs=key[3], uR=key[4], cases=cs))
     return out
+
+
+def angle_of(a):
+    """Spec angle <<5 cos, 5 sin>> -> radians (quarter turns as multiples of pi/2)."""
+    quarter = {(5, 0): 0.0, (0, 5): np.pi / 2, (-5, 0): np.pi, (0, -5): 3 * np.pi / 2}
+    return quarter.get(tuple(a), math.atan2(a[1], a[0]))
 
 
 def group_model_kwargs(g, L):
@@ -253,7 +260,7 @@ def group_model_kwargs(g, L):
         if g["dim"] > 1:
             kw["anis"] = [2.0 ** e for e in g["es"]]
         if g["kind"] == "spatial" and g["qs"]:
-            kw["angles"] = [q * np.pi / 2 for q in g["qs"]]
+            kw["angles"] = [angle_of(a) for a in g["qs"]]
     elif g["kind"] == "yadrenko":
         kw["geo_scale"] = g["uR"] * L / 16.0
     return kw
@@ -284,7 +291,7 @@ def run_group(m, g, L):
             yield short + "_yadrenko", fn, cs, {"args": [zeta.tolist()]}, getattr(m, short + "_yadrenko")(zeta)
     else:
         cs = g["cases"]
-        pos = np.array([c["x"] for c in cs], dtype=float).T * unit  # (dim, n)
+        pos = np.array([c["x"] for c in cs], dtype=float).T * (L / 2000.0)  # (dim, n)
         for short, fn in PLAIN.items():
             yield short + "_spatial", fn, cs, {"args": [pos.tolist()]}, getattr(m, short + "_spatial")(pos)
 
@@ -503,9 +510,14 @@ def task_user(job):
             for f in D:
                 if f not in cls.__dict__ or cls.__dict__[f].__name__ != f:
                     col.drift_msg("user class {%s}: own definition of %s was replaced" % (sig, f))
+            if any(":cycle:" in k for k, _w, _r in col.violations):
+                return col.result()
+        nv = len(col.violations)
         check_table(col, m, mspec, tab, "userclass:" + sig + ":%s:%s", who)
         col.cases += 1
         col.keys += 1
+        if len(col.violations) > nv:
+            continue  # the variants of a wrong function are wrong as well: one root cause, one report
         cache = {}
         L = base["len_scale"]
         for g in pick_groups(G["groups"], dim, rng, G["nspatial_value"]):
@@ -543,9 +555,12 @@ def task_poly(job):
             col.violation("closedform:%s:construct" % real, "%s(%s) cannot be constructed: %r" % (real, base, e), mspec)
             return col.result()
         who = "%s(%s)" % (real, ", ".join("%s=%r" % kv for kv in base.items()))
+        nv = len(col.violations)
         check_table(col, m, mspec, tab, "closedform:" + real + ":%s:%s", who)
         col.cases += 1
         col.keys += 1
+        if len(col.violations) > nv:
+            continue  # the variants of a wrong function are wrong as well: one root cause, one report
         cache = {}
         L = base["len_scale"]
         for g in pick_groups(G["groups"], dim, rng, G["nspatial_value"]):
@@ -670,11 +685,11 @@ def task_relation(job):
                         check_group(col, ml, {"class": name, "kwargs": fl}, g, L, var, nug,
                                     "variant:" + name + ":latlon-%s:%s", relation=True)
                 if dim == 3 and oi == 0 and not col.samples:
-                    g = next((g for g in groups if g["kind"] == "spatial" and any(g["qs"]) and any(g["es"])), groups[-1])
+                    g = next((g for g in groups if g["kind"] == "spatial" and any(abs(a[0]) in (3, 4) for a in g["qs"]) and any(g["es"])), groups[-1])
                     cse = next((c for c in g["cases"] if c["u"]), g["cases"][0])
                     col.samples.append({"class": name, "kwargs": dict(full0, **group_model_kwargs(g, L)),
                                         "case": tlaval.to_tla(_pub(cse)),
-                                        "meaning": "cov_spatial(x * len_scale/16) == covariance(u * len_scale/16)"})
+                                        "meaning": "cov_spatial(x * len_scale/2000) == covariance(u * len_scale/16); angles qs = <<5 cos, 5 sin>>"})
             used = (used + n_par) % len(lattice)
     return col.result()
 
@@ -762,7 +777,17 @@ def _pubst(st):
 
 def _dispatch(job):
     kind, payload = job
-    return kind, {"user": task_user, "poly": task_poly, "relation": task_relation, "int": task_int}[kind](payload)
+    try:
+        return kind, {"user": task_user, "poly": task_poly, "relation": task_relation, "int": task_int}[kind](payload)
+    except RecursionError:
+        # evaluation of a model function does not terminate: the derivation of the missing
+        # functions is cyclic (C03: every function bottoms out in a defined one)
+        col = Collect()
+        who = payload[0] if kind != "user" else "user class {%s}" % dsig(payload[0])
+        col.violation("cycle:%s:%s" % (kind, who if kind != "poly" else payload[0][0]),
+                      "%s: evaluating a model function never terminates (RecursionError, cyclic delegation)" % (who,),
+                      {"task": kind, "payload": repr(payload)})
+        return kind, col.result()
 
 
 def aux_numeric(rep):
